@@ -135,7 +135,7 @@ theorem C03_history_free (maxAge : Rat) (sb : SystemBounds) (h1 h2 : List C03_Op
 /-- Expiry: after `drop_old_proposals(now)` exactly the proposals not older than `maxAge` remain. -/
 theorem C03_expiry (maxAge now : Rat) (b : List Proposal) (p : Proposal) :
     p ∈ dropOld maxAge now b ↔ p ∈ b ∧ now - p.created ≤ maxAge := by
-  unfold dropOld
+  unfold dropOld Extracted.Proposal.expired
   simp [List.mem_filter, Rat.not_lt]
 
 /-- The full statement of C03 on the model. -/
